@@ -624,6 +624,8 @@ def stream_lhs(ctx):
             d = min(d, 3)
         cases.append((gen_bounds(rng, d), n, rng.getrandbits(31)))
     cases.append(([(-2.5, 5), (1, 3.4), (6, 10)], 3, 42))
+    for n in (49, 98, 103, 107, 161, 187):      # sample counts N whose reciprocal is inexact: 1/(1/N) != N in doubles
+        cases.append((gen_bounds(rng, rng.randint(1, 3)), n, rng.getrandbits(31)))
     outs = []
     for b, n, s in cases:
         o = guarded(ctx, "lhs", "LHSGenerator with number=%d, bounds %r" % (n, b), {"op": "lhs", "N": n, "bounds": [list(x) for x in b], "np_seed": s},
